@@ -65,6 +65,11 @@ def h_capture(sx):
         if name == "before_all":
             root.setLevel(logging.DEBUG)
             root.addHandler(user_handler)
+            if p.get("stale_level_cache"):
+                # the application logger was already asked "is WARNING enabled?" while the root level was higher
+                # (e.g. a module logging at import time): loggers cache that answer until some setLevel() call
+                root.setLevel(logging.ERROR)
+                logging.getLogger("harness").isEnabledFor(logging.WARNING)
         if name == "before_scenario":
             sid = w._label(args[0])
             states[sid] = ([h for h in root.handlers], root.level)
@@ -202,12 +207,13 @@ def jobs(tier, seed):
                        "rule": ([F([S(1), R([S(1)], bg=1)], bg=1)], {"out_dom": D})})
     shapes["volume"] = ([F([S(2), S(1)])], {"out_dom": {"*": [0, 1]}, "undef": False, "log_volume": [0, 600, 1000]})
     shapes["filter"] = ([F([S(2), S(1)])], {"out_dom": {"*": [0, 1]}, "undef": False, "log_volume": [0, 3]})
+    shapes["stale-level-cache"] = ([F([S(2), S(1)])], {"out_dom": {"*": [0, 1]}, "undef": False})
     shapes["nested"] = ([F([S(2), S(1)])], {"out_dom": {"*": [0, 1]}, "nested_steps": ["f0.i0.0", "f0.i1.0"], "undef": False})
     for name, (sh, opts) in shapes.items():
         for clear in ((False,) if tier == "quick" else (False, True)):
             js.append(Job("capture.%s.c%d" % (name, clear), "props.c18:h_capture",
                           {"shapes": sh, "opts": opts, "fault": name == "hookfault", "clear_handlers": clear,
-                           "log_filter": "other,-harness.fill" if name == "filter" else None},
+                           "log_filter": "other,-harness.fill" if name == "filter" else None, "stale_level_cache": name == "stale-level-cache"},
                           reach=REACH if name != "hookfault" else REACH[:3], min_paths=20, cost=100, validate=60))
     js.append(Job("captured-kernel", "props.c18:h_captured_kernel", {}, reach=["C18.captured-add-loses-nothing"], min_paths=100, cost=50,
                   validate=50, closure=False))
